@@ -53,11 +53,27 @@ func (p *ConfigProp[T]) Overwrite(value T) {
 	p.event().Fire(value)
 }
 
-// Stages the new value, keeping the old. The change is not committed until CommitStaged is called.
+// Which of the two values of a property is meant.
+type view int
+
+const (
+	effective view = iota // What Read() returns: the command-line overwrite if there is one.
+	saved                 // What is written to the config file and loaded by the next start.
+)
+
+// The value the property will have once a staged change is committed (the current one if nothing is staged).
+func (p *ConfigProp[T]) pending(v view) T {
+	commit, _ := p.value.Load()
+	overwritable := commit.stagedValue.UnwrapOr(commit.comittedValue)
+	if v == saved {
+		return overwritable.Original()
+	}
+	return overwritable.Get()
+}
+
+// Stages the new value, keeping the old. Nobody sees the change until CommitStaged is called.
 func (p *ConfigProp[T]) Stage(newValue T) {
 	commit, _ := p.value.Load()
-
-	oldVal := commit.ref().Original()
 
 	// Copy the old Overwritable to keep any command-line overwrites.
 	overwritable := commit.Value()
@@ -65,18 +81,32 @@ func (p *ConfigProp[T]) Stage(newValue T) {
 	commit.Stage(overwritable)
 
 	p.value.Store(commit)
+}
 
-	if p.requiresRestart && (oldVal != newValue) {
+// Makes the staged value the current one and tells the listeners. Does nothing if no value is staged.
+func (p *ConfigProp[T]) CommitStaged() {
+	commit, _ := p.value.Load()
+	staged, ok := commit.stagedValue.Get()
+	if !ok {
+		return
+	}
+
+	oldVal := commit.ref().Original()
+	commit.Commit()
+	p.value.Store(commit)
+
+	if p.requiresRestart && (oldVal != staged.Original()) {
 		setRestartNeeded()
 	}
 
 	// Listeners follow the effective value: a command-line overwrite stays in force for the running process.
-	p.event().Fire(overwritable.Get())
+	p.event().Fire(staged.Get())
 }
 
-func (p *ConfigProp[T]) CommitStaged() {
+// Drops the staged value, if any.
+func (p *ConfigProp[T]) DiscardStaged() {
 	commit, _ := p.value.Load()
-	commit.Commit()
+	commit.Uncommit()
 	p.value.Store(commit)
 }
 
@@ -84,8 +114,10 @@ func (p *ConfigProp[T]) String() string {
 	return fmt.Sprintf("%v", p.value)
 }
 
+// Marshals what is (to be) saved: a staged value is written before it is committed, so that an update whose
+// write fails can still be refused.
 func (p ConfigProp[T]) MarshalJSON() ([]byte, error) {
-	return json.Marshal(p.value)
+	return json.Marshal(p.pending(saved))
 }
 
 func (p *ConfigProp[T]) UnmarshalJSON(data []byte) error {
